@@ -998,12 +998,16 @@ package tally
 //@   ensures @cardinality_tags_sanitized result.cardinalityMetricsTags != nil && (forall k string :: k in result.cardinalityMetricsTags ==> cleanKey(root, k) && cleanValue(root, result.cardinalityMetricsTags[k]))
 //@   ensures @no_cached_reporter_no_allocation root.cachedReporter == nil || omitCardinalityMetrics ==> quiet()
 //@   ensures @caller_tags_untouched forall k string :: (k in cardinalityMetricsTags) == old(k in cardinalityMetricsTags)
-//@   loop 1 invariant @registry r != nil && fresh(r) && r.root == root && r.cardinalityMetricsTags != nil && fresh(r.cardinalityMetricsTags) && r.cardinalityMetricsTags != cardinalityMetricsTags && quiet() && shardCount >= 1 && len(r.subscopes) == shardCount && fresh(r.subscopes) && r.subscopes.off == 0
+//@   loop 1 invariant @registry r != nil && fresh(r) && r.root == root
+//@   loop 1 invariant @own_tag_map r.cardinalityMetricsTags != nil && fresh(r.cardinalityMetricsTags) && r.cardinalityMetricsTags != cardinalityMetricsTags
+//@   loop 1 invariant @shards quiet() && shardCount >= 1 && len(r.subscopes) == shardCount && fresh(r.subscopes) && r.subscopes.off == 0
 //@   loop 1 invariant @tags_sanitized forall k string :: k in r.cardinalityMetricsTags ==> cleanKey(root, k) && cleanValue(root, r.cardinalityMetricsTags[k])
 //@   loop 1 invariant @names r.sanitizedCounterCardinalityName == pcall(Sanitizer.Name, root.sanitizer, "tally.internal.counter_cardinality") && r.sanitizedGaugeCardinalityName == pcall(Sanitizer.Name, root.sanitizer, "tally.internal.gauge_cardinality") && r.sanitizedHistogramCardinalityName == pcall(Sanitizer.Name, root.sanitizer, "tally.internal.histogram_cardinality") && r.sanitizedScopeCardinalityName == pcall(Sanitizer.Name, root.sanitizer, "tally.internal.num_active_scopes")
 //@   loop 1 invariant @caller_tags_untouched forall k string :: (k in cardinalityMetricsTags) == old(k in cardinalityMetricsTags)
-//@   loop 2 invariant @registry r != nil && fresh(r) && r.root == root && r.cardinalityMetricsTags != nil && quiet() && shardCount >= 1 && len(r.subscopes) == shardCount && fresh(r.subscopes) && r.subscopes.off == 0 && 0 <= i && i <= shardCount
+//@   loop 2 invariant @registry r != nil && fresh(r) && r.root == root && r.cardinalityMetricsTags != nil && fresh(r.cardinalityMetricsTags)
+//@   loop 2 invariant @shards quiet() && shardCount >= 1 && len(r.subscopes) == shardCount && fresh(r.subscopes) && r.subscopes.off == 0 && 0 <= i && i <= shardCount
 //@   loop 2 invariant @tags_sanitized forall k string :: k in r.cardinalityMetricsTags ==> cleanKey(root, k) && cleanValue(root, r.cardinalityMetricsTags[k])
 //@   loop 2 invariant @names r.sanitizedCounterCardinalityName == pcall(Sanitizer.Name, root.sanitizer, "tally.internal.counter_cardinality") && r.sanitizedGaugeCardinalityName == pcall(Sanitizer.Name, root.sanitizer, "tally.internal.gauge_cardinality") && r.sanitizedHistogramCardinalityName == pcall(Sanitizer.Name, root.sanitizer, "tally.internal.histogram_cardinality") && r.sanitizedScopeCardinalityName == pcall(Sanitizer.Name, root.sanitizer, "tally.internal.num_active_scopes")
 //@   loop 2 invariant @buckets forall j int :: 0 <= j && j < i ==> r.subscopes[j] != nil && fresh(r.subscopes[j]) && r.subscopes[j].s != nil && kspec1(root.prefix, root.tags) in r.subscopes[j].s && r.subscopes[j].s[kspec1(root.prefix, root.tags)] == root && (forall k string :: k in r.subscopes[j].s ==> k == kspec1(root.prefix, root.tags))
 //@   loop 2 invariant @caller_tags_untouched forall k string :: (k in cardinalityMetricsTags) == old(k in cardinalityMetricsTags)
+//@   loop 2 invariant @existing_scope_maps_untouched forall m map[string]*scope :: allocated(m) ==> len(m) == old(len(m)) && (forall k string :: (k in m) == old(k in m) && m[k] == old(m[k]))
